@@ -35,8 +35,8 @@ func checkC07(c *Ctx, r *Report) {
 	r.Floor("open_accepting_outcomes_arm64", 1)
 	r.Floor("open_rejecting_outcomes_amd64", 2)
 	r.Floor("open_rejecting_outcomes_arm64", 2)
-	r.Floor("dst_stores_amd64", 10)
-	r.Floor("consumption_obligations", 4)
+	r.Floor("dst_stores_amd64", 4)
+	r.Floor("consumption_obligations", 2)
 }
 
 func isGlobalNamed(v ssa.Value, name string) bool {
